@@ -200,6 +200,7 @@ def parseOp (env : Array Dec) (kind zs bs hs : String) : Step :=
     let (env', extra, skip) : Array Dec × String × List Nat := match r with
       | .ok (d, b) => (env.set! zi d, s!"ok {b}", [])
       | .error _ => (env, "err", [zi])      -- the receiver is valid but not defined after an error
+    let rangeErr := match r with | .error .expOverflow => true | _ => false
     let isPlain10 := match r with
       | .ok (_, b) => b == 10 && !(chars.any (fun c => c == 'p' || c == 'P')) && !(chars.any (fun c => c == 'I' || c == 'i'))
       | _ => false
@@ -211,7 +212,9 @@ def parseOp (env : Array Dec) (kind zs bs hs : String) : Step :=
         let accepted := res.startsWith "ok"
         if res == "err-nonnil" then some "an error was reported together with a non-nil result"
         else if res == "ok-other" then some "Parse returned a Decimal other than its receiver"
-        else if big != "na" && accepted != big.startsWith "ok" then some s!"acceptance differs from math/big Float.Parse: decimal={res} big={big}"
+        -- a literal rejected only because its VALUE leaves the decimal exponent range is well-formed: math/big, whose
+        -- range is different, may accept it (e.g. 3e-2147483668, which it flushes to 0); that is not a grammar difference
+        else if big != "na" && accepted != big.startsWith "ok" && !(rangeErr && !accepted) then some s!"acceptance differs from math/big Float.Parse: decimal={res} big={big}"
         else if big != "na" && accepted && res != big then some s!"detected base differs from math/big: decimal={res} big={big}"
         else if res != extra then some s!"model parse: go={res} model={extra}"
         else if !accepted then none
